@@ -24,8 +24,9 @@ struct Block {
     align: usize,
     tracked: bool,
     arena: bool, // allocated from the low-memory arena (never returned to the system)
+    rz: usize,   // red zone this block was allocated with (the setting may change at start-up)
 }
-static mut BLOCKS: [Block; TBL] = [Block { ptr: 0, size: 0, align: 0, tracked: false, arena: false }; TBL];
+static mut BLOCKS: [Block; TBL] = [Block { ptr: 0, size: 0, align: 0, tracked: false, arena: false, rz: 0 }; TBL];
 
 /// Low-memory arena (GENRUN_LOWMEM=1): tracked blocks are carved out of a region mapped below 2^32 (mmap MAP_32BIT), so
 /// that generated code which squeezes a pointer through an i32 core value (`XBorrow::lift(arg as u32 as usize)`, right on
@@ -171,7 +172,7 @@ unsafe impl GlobalAlloc for TrackAlloc {
                 *p.add(i) = 0xA5;
             }
             let tracked = TRACK;
-            if !tbl_insert(Block { ptr: p as usize, size: layout.size(), align: layout.align(), tracked, arena }) {
+            if !tbl_insert(Block { ptr: p as usize, size: layout.size(), align: layout.align(), tracked, arena, rz: r }) {
                 ev(b'E', p as usize, layout.size(), layout.align(), E_TABLE_FULL);
             }
             if tracked {
@@ -196,7 +197,7 @@ unsafe impl GlobalAlloc for TrackAlloc {
                     if b.tracked || TRACK {
                         ev(b'F', p as usize, b.size, b.align, if b.tracked { 0 } else { 1 });
                     }
-                    let r = rz(b.align);
+                    let r = b.rz;
                     let base = p.sub(r);
                     let mut bad = false;
                     for k in 0..r {
@@ -242,7 +243,7 @@ pub fn check_redzones() {
         for i in 0..TBL {
             let b = BLOCKS[i];
             if b.ptr != 0 && b.tracked {
-                let r = rz(b.align);
+                let r = b.rz;
                 let base = (b.ptr as *const u8).sub(r);
                 for k in 0..r {
                     if *base.add(k) != 0xFB || *base.add(r + b.size + k) != 0xFB {
